@@ -25,18 +25,21 @@ def jobs(tier, seed):
         out.append(dict(j, family='load-save-load'))
     for j in histcommon.hist_jobs('quick', seed, finish=1, extra_starts=(8,)):
         if j['cfg']['start'] == 8: j = dict(j, cfg=dict(j['cfg'], finish=0))     # (lists longer than the counts: memory safety of the edits themselves)
-        # quick: populated and fewer-labels start states with the print+save+reload epilogue, the fresh one without it (the epilogue is 5/6 of
+        # quick: the populated start state with the print+save+reload epilogue, the fresh, fewer-labels and padded-lists ones without it (the epilogue is 5/6 of
         # the cost of a history); the other start states are C05/C07/C10's daily runs (same memory monitors, no epilogue)
         if tier == 'quick' and j['cfg']['start'] in (1, 3, 5, 6): continue
-        if tier == 'quick' and j['cfg']['start'] == 0: j = dict(j, cfg=dict(j['cfg'], finish=0))
+        if tier == 'quick' and j['cfg']['start'] in (0, 4): j = dict(j, cfg=dict(j['cfg'], finish=0))
         out.append(dict(j, family='history'))
     if tier == 'thorough':
         # depth 3 without the print/save/reload epilogue (it is 3/4 of the cost of a history; the epilogue runs on every depth-2 history above)
         for j in histcommon.hist_jobs('thorough', seed, finish=0): out.append(dict(j, family='history'))
-    for j in c06.jobs(tier, seed): out.append(dict(j, family='frame-store'))
+    for j in c06.jobs(tier, seed):
+        # quick: four representative shapes of C06's complete shape sweep (C06 itself runs them all with the same memory monitors)
+        if tier == 'quick' and j['entry'] == 'h_c06' and (j['cfg']['P'], j['cfg']['C'], j['cfg']['S']) not in ((2, 1, 2), (1, 2, 2), (0, 2, 1), (2, 0, 1)): continue
+        out.append(dict(j, family='frame-store'))
     for j in c08.jobs(tier, seed): out.append(dict(j, family='aliasing'))
     for j in c09.jobs(tier, seed):
-        if j['name'] == 'tree': out.append(dict(j, family='tree-edits'))
+        if j['name'] == 'tree' and (tier != 'quick' or j['forced'][0] in (0, 2, 7)): out.append(dict(j, family='tree-edits'))      # (quick: add with a free name, new group, own parameter into a new group; the rest is C09's daily run)
     for j in c11.jobs(tier, seed): out.append(dict(j, family='look-ups'))
     for j in c14.jobs(tier, seed):
         if j['name'] == 'api-built' and j['cfg']['P'] == 2: out.append(dict(j, family='double-save'))
